@@ -345,6 +345,7 @@ func init() {
 		Expl: "Decides only the cache-coherence clause 'editing a set leaves the compiled form equivalent to the edited pattern list' in its structural form: for every defined-set type that keeps compiled matchers next to its pattern lists (found from the code: a parameterless method that recomputes 'matchers' from other fields), every function that modifies a pattern list — directly or through the embedded list's Append/Remove/Replace — reaches that rebuild method on every path to a successful return; and (E2.index-owned) the any-match indexes derived from the matcher list own their bitmaps (no aliasing of a matcher's bitmap, no write through the matcher list).",
 		Not:  "That the compiled matchers (exact, wildcard, bitmap, any-index fast paths) decide what the regular expressions decide is a statement about strings and is not decided.",
 		Run: func(c *Ctx) {
+			c.ruleRatchets("C13")
 			c.ruleCompiledSetCoherence()
 			c.ruleIndexOwned()
 		},
